@@ -14,7 +14,7 @@ Definition outcome (k : sfail) (m target : mstate) : mstate :=
   match k with
   | SOk => target
   | SOSError _ | SNormal | SProto => MLost      (* the server says the connection is gone *)
-  | SOther => m
+  | SOther | SInvalid => m
   end.
 
 Definition mon_step (m : mstate) (a : event * sfail) : option mstate :=
@@ -97,6 +97,10 @@ Definition payload_bad (o : op) : bool :=
   | _ => false
   end.
 
+(* a rejected payload: no send() call happened during the operation *)
+Definition bad_payload_quiet (o : op) (sends_before sends_after : nat) : bool :=
+  if payload_bad o then Nat.eqb sends_before sends_after else true.
+
 (* true = the result is what the documentation promises for this (state, operation) *)
 Definition misuse_ok (c : cfg) (p : pub) (o : op) (r : result) : bool :=
   negb (is_internal r) &&
@@ -154,7 +158,8 @@ Definition stream (w : ws) : list cev :=
    cause: 0 returned, 1 unrouted, 2 no on_websocket responder, 3 HTTPError/HTTPStatus s,
    4 any other exception.  The first close the wrapper attempts carries the code of the cause;
    a further attempt (after that close failed) carries the configured error code, or the
-   fallback when the configured one is invalid. *)
+   fallback (when the configured one is invalid, or the server rejected a close with an
+   "invalid close code" error). *)
 Definition expected_code (c : cfg) (fallback offset : Z) (cause : nat) (s : Z) : Z :=
   match cause with
   | O => 1000
@@ -173,5 +178,25 @@ Definition wrapper_close_ok (c : cfg) (fallback offset : Z) (cause : nat) (s : Z
   | [] => true
   | z :: tl =>
     Z.eqb z (expected_code c fallback offset cause s)
-    && forallb (fun y => Z.eqb y (expected_code c fallback offset 4 0)) tl
+    && forallb (fun y => Z.eqb y (expected_code c fallback offset 4 0) || Z.eqb y fallback) tl
   end.
+
+(* ---- 5. "invalid close code" fallback.  When the responder returned or failed with anything
+   but an HTTP error / status (causes 0 and 4) and the server rejects a close the wrapper sends
+   with an "invalid close code" error, the wrapper must try again (with the fallback code),
+   unless the rejected close already carried the fallback.  (Proved of the model: C17_wrapper_retries_after_invalid_close_code.) *)
+Fixpoint retry_ok (fallback : Z) (l : list (event * sfail)) : bool :=
+  match l with
+  | [] => true
+  | (EClose z _, SInvalid) :: rest =>
+    (Z.eqb z fallback || match close_codes rest with [] => false | _ => true end)
+    && retry_ok fallback rest
+  | _ :: rest => retry_ok fallback rest
+  end.
+
+Definition wrapper_retry_ok (fallback : Z) (cause : nat) (l : list (event * sfail)) : bool :=
+  match cause with
+  | O | S (S (S (S _))) => retry_ok fallback l
+  | _ => true
+  end.
+
